@@ -4,6 +4,7 @@
 //!       generates cases, executes them on the implementation, writes <prefix>.ops / <prefix>.impl
 //!   cwmt-harness exec --slice <name> <file.ops>
 //!       executes an ops file (same format, `case` separators) and prints the outputs to stdout
+mod addr;
 mod bank;
 mod kv;
 mod sexp;
@@ -21,6 +22,7 @@ pub fn exec_case(slice: &str, lines: &[String]) -> Vec<String> {
         "overlay" => kv::exec_overlay(lines),
         "views" => kv::exec_views(lines),
         "bank" => bank::exec_bank(lines),
+        "addr" => addr::exec_addr(lines),
         s if s.starts_with("wasm") => wasm::exec_wasm(lines),
         _ => panic!("unknown slice {}", slice),
     });
@@ -41,6 +43,7 @@ pub fn gen_case(slice: &str, rng: &mut Rng, thorough: bool) -> Vec<String> {
         "overlay" => kv::gen_overlay(rng, thorough),
         "views" => kv::gen_views(rng, thorough),
         "bank" => bank::gen_bank(rng, thorough),
+        "addr" => addr::gen_addr(rng, thorough),
         "wasm" => wasm_gen::gen_wasm(rng, thorough),
         "wasm-admin" => wasm_gen2::gen_admin(rng, thorough),
         "wasm-codes" => wasm_gen2::gen_codes(rng, thorough),
